@@ -68,4 +68,7 @@ def run(ctx):
 
 
 def replay(ctx, payload):
+    if payload["case"].get("kind") in ("eval", "calib"):
+        from harness.drivers import _calib
+        return _calib.replay(ctx, payload)
     return O.replay(ctx, payload)
